@@ -9,14 +9,15 @@ namespace Aiocoap.Uri
 
 /-- What the theorems assume about `str(ipaddress.IPv6Address(x))` (Python's `ipaddress` is not
 modelled): the result is a fixed point, contains a colon, is lower-case up to the zone, starts
-neither with `v` nor `[`; what precedes its zone identifier are hex digits, `:` and `.`; the zone
-identifier is that of the input, copied; and only texts with a colon are addresses.  The harness
+neither with `v` nor `[`; what precedes the zone identifier are hex digits, `:` and `.` (in the
+result and in the text it was made from); the zone identifier is that of the input, copied; and only texts with a colon are addresses.  The harness
 checks these on every address it sees.  (Nothing is assumed about what a zone identifier may
 contain — `ipaddress` takes any text there.) -/
 structure IpLaws (ip : IpOracle) : Prop where
   canon : ∀ x y, ip.norm6 x = some y →
     ip.norm6 y = some y ∧ 58 ∈ y ∧ lowerUntilPct y = y ∧ y.head? ≠ some 118 ∧ y.head? ≠ some 91
   addr : ∀ x y, ip.norm6 x = some y → ∀ c ∈ before 37 y, isHex c = true ∨ c = 58 ∨ c = 46
+  addrIn : ∀ x y, ip.norm6 x = some y → ∀ c ∈ before 37 x, isHex c = true ∨ c = 58 ∨ c = 46
   zone : ∀ x y, ip.norm6 x = some y → after 37 y = after 37 x
   colon : ∀ x y, ip.norm6 x = some y → 58 ∈ x
 
